@@ -563,7 +563,8 @@ class OperandFlow:
     Calls to helper functions that receive an operand, the argument vector or the dispatcher are followed (parameters bound to the arguments), two levels deep.
     Nothing depends on the spelling of a local or on the name of a helper."""
 
-    def __init__(self, callee_rx, resolve=None, max_depth=2):
+    def __init__(self, callee_rx, resolve=None, max_depth=2, arity=2):
+        self.arity = arity      # number of operands of the dispatcher (2 for the binary operators; the stepped range compilers have 3)
         self.rx = callee_rx
         self.resolve = resolve
         self.max_depth = max_depth
@@ -682,17 +683,17 @@ class OperandFlow:
         """one alternative `(P0, P1)` of a match over a pair: what P_i binds stands for the i-th component of the scrutinee - the operand whose position the
         component's provenance gives; when the scrutinee's provenance is unknown (not rooted in an argument vector) the component index IS the position"""
         sc2 = sc.copy()
-        comps = scrut[1] if (is_node(scrut) and scrut[0] == "tuple" and len(scrut[1]) == 2) else None
-        cp = [self.pos(c, sc) for c in comps] if comps else [NOPOS, NOPOS]
-        if not cp[0] and not cp[1] and sc.arm is None:
-            cp = [frozenset({0}), frozenset({1})]
+        comps = scrut[1] if (is_node(scrut) and scrut[0] == "tuple" and len(scrut[1]) == self.arity) else None
+        cp = [self.pos(c, sc) for c in comps] if comps else [NOPOS] * self.arity
+        if not any(cp) and sc.arm is None:
+            cp = [frozenset({i}) for i in range(self.arity)]
         for i, sub in enumerate(alt[1]):
             for b in find(sub, "pident"):
                 sc2.env[b[1]] = cp[i]
                 sc2.vecs.discard(b[1])
                 sc2.disp.discard(b[1])
                 sc2.descr.discard(b[1])
-        if cp[0] and cp[1]:
+        if all(cp):
             sc2.arm = alt
         if guard is not None:
             self.ex(guard, sc2, depth)
@@ -732,9 +733,9 @@ class OperandFlow:
             self.ex(e[1], sc, depth)
             for arm in e[2]:
                 alts = arm[0][1] if arm[0][0] == "por" else [arm[0]]
-                if any(a[0] == "ptuple" and len(a[1]) == 2 for a in alts):
+                if any(a[0] == "ptuple" and len(a[1]) == self.arity for a in alts):
                     for a in alts:
-                        if a[0] == "ptuple" and len(a[1]) == 2:
+                        if a[0] == "ptuple" and len(a[1]) == self.arity:
                             self.pair_arm(e[1], a, arm[2], arm[1], sc, depth)
                 else:
                     sc2 = sc.copy()
@@ -758,7 +759,7 @@ class OperandFlow:
                 else:
                     self.ex(a, sc, depth)
         elif t == "call":
-            if self.is_dispatcher(e[1], sc) and len(e[2]) == 2:
+            if self.is_dispatcher(e[1], sc) and len(e[2]) == self.arity:
                 self.sites.append((e, [self.pos(a, sc) for a in e[2]], sc.arm))
             elif path_of(e[1]):
                 self.follow(e, sc, depth)
